@@ -1,6 +1,6 @@
 """C01 — parse then print preserves the meaning of every accepted module."""
 from . import common as C
-from . import modgen, modprops, coregen
+from . import modgen, modprops, coregen, catalog, regen
 from .modprops import hx
 
 TRUSTED = ["Lean 4.33 kernel; axioms: propext, Quot.sound, Classical.choice at most (see coverage.axioms_used)",
@@ -9,7 +9,8 @@ TRUSTED = ["Lean 4.33 kernel; axioms: propext, Quot.sound, Classical.choice at m
            "PARTIAL: outside M-Core and the leaf categories (C08, C09, C11, C16, C17, C18, C20, C04/C05) the grammar is tied by correspondence only: byte-exact fixpoint of "
            "generated canonical modules, graph closure, stability of the corpus modules; LLVM's own reading of the text is not consulted in the quick tier"]
 ASSUMPTIONS = ["names satisfy the C11 guards (non-empty, no NUL, not digit-led junk, not readable as an ID)"]
-RULE = ("(a) M-Core modules (random names incl. quoted/escaped/high-byte, widths, values): model text == implementation text byte for byte for the constructed module and "
+RULE = ("(0) a catalogue of ~790 one-construct modules (every enum keyword of the regenerated table, structured attributes, all instruction/terminator kinds, constants, "
+        "constant expressions, specialised DI nodes): the construct's text must survive parse+print and the output must be stable; (a) M-Core modules (random names incl. quoted/escaped/high-byte, widths, values): model text == implementation text byte for byte for the constructed module and "
         "for the re-parsed module; (b) generated typed modules rendered canonically must be byte-exact fixpoints of parse+print and closed graphs; (c) corpus modules and "
         "shuffled renderings must be accepted, printable and stable; non-trivial = distinct module")
 
@@ -29,6 +30,10 @@ def gen(tier, rng, harness=None):
     for t in modprops.corpus_texts():
         lines.append("!mod.stable - %s" % hx(t))
         lines.append("!mod.closure - %s" % hx(t))
+    # one-construct catalogue: every keyword of the regenerated enum table in a minimal module, structured attributes, every instruction
+    # and terminator kind, constants and constant expressions, the specialised debug-info nodes with their fields
+    for name, text, frags in catalog.all_entries(regen.enum_table(harness)):
+        lines.append("!mod.keeps %s %s" % (hx("\x1f".join(frags or [])), hx(text)))
     for m, text, sk in modprops.gen_modules(rng, n):
         lines.append("!mod.fix %s %s" % (hx(sk), hx(text)))
         t2, _ = modgen.render(m, rng, shuffle=True)
